@@ -52,10 +52,12 @@ class Session(object):
         self.fields = {("$", "alloc"): TBool()}
         self.ghost_fields = set()
         self.class_of = {}
+        self.regex_consts = []
         self.contracts = {}     # "relpath:qualname" -> contract
         self.by_name = {}       # qualname -> [contract]
         for sc in sidecars:
             self.load(sc)
+        self.regex_facts()
 
     # ------------------------------------------------------------------ loading
     def load(self, spec):
@@ -127,6 +129,8 @@ class Session(object):
                         mi.consts.setdefault(nm, ("Int", v.value))
                     else:
                         mi.consts.setdefault(nm, ("Opaque", "Obj"))
+                if isinstance(v, ast.Call) and isinstance(v.func, ast.Attribute) and v.func.attr == "compile" and getattr(v.func.value, "id", "") == "re":
+                    self.regex_consts.append((mi, nm))
             elif isinstance(n, ast.ClassDef) and n.name not in mi.classes:
                 init = None
                 for b in n.body:
@@ -145,6 +149,78 @@ class Session(object):
                     nm = al.asname or al.name
                     if nm[:1].isupper() and nm not in lib:
                         mi.consts.setdefault(nm, ("Opaque", "Obj"))
+                        if nm.endswith("_RE"):
+                            self.regex_consts.append((mi, nm))
+
+    def regex_facts(self):
+        """structural facts read mechanically from the sre parse tree of the REAL compiled patterns (imported from the repo
+        under verification): which capture groups always participate in a match.  group_mandatory(P, n) axioms."""
+        if not self.regex_consts:
+            return
+        import importlib
+        import re as _re
+        try:
+            import re._parser as sre_parse
+            import re._constants as sre_c
+        except ImportError:   # pragma: no cover
+            import sre_parse
+            import sre_constants as sre_c
+        if self.repo not in sys.path:
+            sys.path.insert(0, self.repo)
+        cx = self.cx
+        gm = cx.func("uf_group_mandatory", cx.Obj, z3.IntSort(), z3.BoolSort())
+        self.regex_info = {}
+        for mi, nm in self.regex_consts:
+            modname = mi.relpath[:-3].replace("/", ".")
+            try:
+                for k in [k for k in sys.modules if k == "ural" or k.startswith("ural.")]:
+                    if not getattr(sys.modules[k], "__file__", "").startswith(self.repo):
+                        del sys.modules[k]
+                mod = importlib.import_module(modname)
+                pat = getattr(mod, nm)
+                if not hasattr(pat, "pattern"):
+                    continue
+                tree = sre_parse.parse(pat.pattern, pat.flags)
+            except Exception as e:
+                self.regex_info[nm] = "unavailable: %s" % type(e).__name__
+                continue
+            optional = set()
+
+            def walk(items, opt):
+                for op, av in items:
+                    if op is sre_c.SUBPATTERN:
+                        g = av[0]
+                        if g is not None and opt:
+                            optional.add(g)
+                        walk(av[3], opt)
+                    elif op in (sre_c.MAX_REPEAT, sre_c.MIN_REPEAT) or str(op) in ("POSSESSIVE_REPEAT",):
+                        lo = av[0]
+                        walk(av[2], opt or lo == 0)
+                    elif op is sre_c.BRANCH:
+                        for alt in av[1]:
+                            walk(alt, True)
+                    elif op in (sre_c.ASSERT, sre_c.ASSERT_NOT):
+                        walk(av[1], True)
+                    elif str(op) == "ATOMIC_GROUP":
+                        walk(av, opt)
+                    elif op is sre_c.GROUPREF_EXISTS:
+                        walk(av[1], True)
+                        if av[2]:
+                            walk(av[2], True)
+            walk(tree, False)
+            c = z3.Const("const_" + nm, cx.Obj)
+            mand = [g for g in range(1, pat.groups + 1) if g not in optional]
+            self.regex_info[nm] = {"pattern": pat.pattern[:200], "groups": pat.groups, "mandatory_groups": mand}
+            cx.axiom("regex.group0.%s" % nm, gm(c, 0))
+            try:
+                minw = int(tree.getwidth()[0])
+            except Exception:
+                minw = 0
+            mw = cx.func("uf_regex_min_width", cx.Obj, z3.IntSort())
+            cx.axiom("regex.min-width.%s" % nm, mw(c) == minw)
+            self.regex_info[nm]["min_width"] = minw
+            for g in mand:
+                cx.axiom("regex.mandatory-group.%s.%d" % (nm, g), gm(c, g))
 
     def find_def(self, mi, qualname):
         parts = qualname.split(".")
